@@ -34,7 +34,7 @@ BASE_OF = {'_http._tcp.local.': '_http._tcp.local.', '_Ipp._tcp.local.': '_Ipp._
            '_color._sub._Ipp._tcp.local.': '_Ipp._tcp.local.'}
 SAME_BASE = {'_http._tcp.local.': ['_http._tcp.local.', '_printer._sub._http._tcp.local.', '_scanner._sub._http._tcp.local.'],
              '_Ipp._tcp.local.': ['_Ipp._tcp.local.', '_color._sub._Ipp._tcp.local.']}
-HOSTS = [('host-a.local.', 120), ('Host-A.LOCAL.', 120), ('host-b.local.', 75), ('host-c.local.', 4500)]
+HOSTS = [('host-a.local.', 120), ('Host-A.LOCAL.', 120), ('host-b.local.', 75), ('host-c.local.', 4500), ('gießen-nas.local.', 120)]
 ADDRSETS = [['10.1.1.1'], ['fe80::1'], ['10.1.1.1', 'fe80::1'], ['10.1.1.1', '10.1.1.2'], ['10.1.1.3', 'fe80::2', 'fe80::3']]
 TEXTS = ['', '00', '0361623d', '05613d62633d03783d79']
 CLIENT_IP = '10.0.0.77'
@@ -44,7 +44,8 @@ CLIENT_IP = '10.0.0.77'
 def service_desc(draw, i: int) -> Dict[str, Any]:
     t = draw(st.sampled_from(TYPES))
     host, host_ttl = draw(st.sampled_from(HOSTS))
-    label = draw(st.sampled_from(['inst', 'Inst', 'My Printer', 'dotted.name', 'é'])) + str(i)
+    # (among them letters whose full case folding is not their lower case: sharp s, micro sign, long s)
+    label = draw(st.sampled_from(['inst', 'Inst', 'My Printer', 'dotted.name', 'é', 'Straße', 'µ-Lab ſ'])) + str(i)
     return {'type': t, 'name': f'{label}.{BASE_OF[t]}', 'port': draw(st.sampled_from([80, 8080, 65535])), 'server': host,
             'addrs': draw(st.sampled_from(ADDRSETS)), 'props': draw(st.sampled_from(TEXTS)), 'host_ttl': host_ttl,
             'other_ttl': draw(st.sampled_from([4500, 4500, 120, 75, 2, 1])), 'weight': draw(st.sampled_from([0, 5])),
